@@ -152,9 +152,17 @@ func VerifyFunc(ld *Loader, db *ContractDB, fn *ssa.Function, ct *FuncContract, 
 			}
 		}
 		ex.checkGuardedEscape(fr, out, res)
-		if ct != nil {
+		if ct != nil && ct.Opts["trust_ensures"] == "true" {
 			for _, en := range ct.Ensures {
-				for _, part := range ex.splitClause(fr, out, res, en) {
+				ex.vc.Trust("ASSUMED specification of " + funcName(fn) + " (not proved): " + en.Text)
+				ex.abstracted["ASSUMED (not proved): ensures of "+funcName(fn)+": "+en.Text] = true
+			}
+		} else if ct != nil {
+			for _, en := range ct.Ensures {
+				for _, part := range ex.splitClauseE(fr, out, res, en) {
+					if sk, ok := ex.skolemWithHyps(fr, out, part); ok {
+						part.term = sk
+					}
 					o := ex.oblige(out, fr, "post", token.NoPos, part.text, part.term)
 					if o != nil && len(en.Props) > 0 {
 						o.Props = en.Props
@@ -208,6 +216,57 @@ func ownerName(t types.Type) string {
 		return n.Obj().Pkg().Name() + "." + n.Obj().Name()
 	}
 	return ""
+}
+
+func siteOf(ps []string) int {
+	for _, p := range ps {
+		var n int
+		if _, err := fmt.Sscanf(p, "site=%d", &n); err == nil {
+			return n
+		}
+	}
+	return 0
+}
+
+func propsOnly(ps []string) []string {
+	var out []string
+	for _, p := range ps {
+		if !strings.HasPrefix(p, "site=") {
+			out = append(out, p)
+		}
+	}
+	return out
+}
+
+// unlockOrdinal: 1-based position of the Unlock call at pos among the calls
+// and defers of sync.Mutex.Unlock in fn, in source order.
+func unlockOrdinal(fn *ssa.Function, pos token.Pos) int {
+	var ps []token.Pos
+	for _, b := range fn.Blocks {
+		for _, in := range b.Instrs {
+			var c *ssa.CallCommon
+			var p token.Pos
+			switch x := in.(type) {
+			case *ssa.Call:
+				c, p = x.Common(), x.Pos()
+			case *ssa.Defer:
+				c, p = x.Common(), x.Pos()
+			}
+			if c == nil {
+				continue
+			}
+			if f, ok := c.Value.(*ssa.Function); ok && strings.HasSuffix(f.String(), ".Unlock") {
+				ps = append(ps, p)
+			}
+		}
+	}
+	sort.Slice(ps, func(i, j int) bool { return ps[i] < ps[j] })
+	for i, p := range ps {
+		if p == pos {
+			return i + 1
+		}
+	}
+	return 0
 }
 
 // lockDeclFor finds the lock declaration for a mutex address: the mutex is a
@@ -341,9 +400,13 @@ func (ex *Exec) onLock(st *State, fr *Frame, k string, recv Val, pos token.Pos) 
 		}
 	}
 	if ld.Inv != "" && len(ownerAddr.Path) == 0 {
-		for _, cj := range ex.invConjuncts(fr, st, ld, ref, ownerT) {
+		parts := ex.invConjunctsE(fr, st, ld, ref, ownerT)
+		for _, cj := range parts {
 			ex.assume(st, cj.term)
 		}
+		hs := st.clone()
+		hs.lockSnap = nil
+		ex.hyps = append(ex.hyps, hypRecord{state: hs, parts: parts})
 	}
 	// contract clauses that speak about the state right after this Lock()
 	if top := ex.topFrame; top != nil && top.ct != nil && fr == top {
@@ -486,6 +549,28 @@ type invConj struct {
 
 // invConjuncts evaluates the lock invariant (a pure function of the owner
 // pointer) and splits it into its top-level conjuncts.
+// invConjunctsE: like invConjuncts, keeping expressions and a context builder.
+func (ex *Exec) invConjunctsE(fr *Frame, st *State, ld *LockDecl, ref string, owner types.Type) []invConjE {
+	pf := ex.db.pures[ld.Inv]
+	if pf == nil {
+		panic(evalErr{"lock invariant " + ld.Inv + " is not defined"})
+	}
+	mk := func(s *State) *evalCtx {
+		c := ex.newCtx(fr, s, fr.entry, nil)
+		c.env = map[string]TVal{pf.Params[0].Name: {V: Sc{ref, SRef}, T: types.NewPointer(owner)}}
+		c.lets = map[string]Expr{}
+		if p := c.findPkg(pf.Pkg); p != nil {
+			c.pkg = p
+		}
+		return c
+	}
+	var out []invConjE
+	for i, e := range flattenAnd(pf.Body) {
+		out = append(out, invConjE{fmt.Sprintf("%s#%d %s", ld.Inv, i+1, exprText(e)), mk(st).boolTerm(e), e, mk})
+	}
+	return out
+}
+
 func (ex *Exec) invConjuncts(fr *Frame, st *State, ld *LockDecl, ref string, owner types.Type) []invConj {
 	pf := ex.db.pures[ld.Inv]
 	if pf == nil {
@@ -518,6 +603,9 @@ func (ex *Exec) invConjuncts(fr *Frame, st *State, ld *LockDecl, ref string, own
 func (ex *Exec) onUnlock(st *State, fr *Frame, k string, recv Val, pos token.Pos) {
 	if top := ex.topFrame; top != nil && top.ct != nil && fr == top && st.lockSnap != nil {
 		for _, cl := range top.ct.UnlockAsserts {
+			if want := siteOf(cl.Props); want > 0 && want != unlockOrdinal(top.fn, pos) {
+				continue
+			}
 			term, ok := func() (t string, ok bool) {
 				defer func() {
 					if r := recover(); r != nil {
@@ -536,8 +624,8 @@ func (ex *Exec) onUnlock(st *State, fr *Frame, k string, recv Val, pos token.Pos
 				continue
 			}
 			o := ex.oblige(st, fr, "assert-at-unlock", pos, cl.Text, term)
-			if o != nil && len(cl.Props) > 0 {
-				o.Props = cl.Props
+			if o != nil && len(propsOnly(cl.Props)) > 0 {
+				o.Props = propsOnly(cl.Props)
 			}
 		}
 	}
@@ -550,8 +638,12 @@ func (ex *Exec) onUnlock(st *State, fr *Frame, k string, recv Val, pos token.Pos
 		return
 	}
 	ref := ownerAddr.Ref
-	for _, cj := range ex.invConjuncts(fr, st, ld, ref, ownerT) {
-		ex.oblige(st, fr, "lock-inv("+ld.MuField+")", token.NoPos, cj.text, cj.term)
+	for _, cj := range ex.invConjunctsE(fr, st, ld, ref, ownerT) {
+		term := cj.term
+		if sk, ok := ex.skolemWithHyps(fr, st, cj); ok {
+			term = sk
+		}
+		ex.oblige(st, fr, "lock-inv("+ld.MuField+")", token.NoPos, cj.text, term)
 	}
 }
 
